@@ -120,10 +120,14 @@ where
 
                             #[cfg(feature = "tracing")]
                             if let Some(ref callback) = this.config.on_state_change {
-                                callback(
-                                    crate::state::ConnectionState::Reconnecting,
-                                    crate::state::ConnectionState::Connected,
-                                );
+                                // Callbacks only observe: a panic in one must not change the call's outcome
+                                let _ =
+                                    std::panic::catch_unwind(std::panic::AssertUnwindSafe(|| {
+                                        callback(
+                                            crate::state::ConnectionState::Reconnecting,
+                                            crate::state::ConnectionState::Connected,
+                                        );
+                                    }));
                             }
                             return Poll::Ready(Ok(response));
                         }
@@ -139,10 +143,14 @@ where
 
                             #[cfg(feature = "tracing")]
                             if let Some(ref callback) = this.config.on_state_change {
-                                callback(
-                                    crate::state::ConnectionState::Connected,
-                                    crate::state::ConnectionState::Disconnected,
-                                );
+                                // Callbacks only observe: a panic in one must not change the call's outcome
+                                let _ =
+                                    std::panic::catch_unwind(std::panic::AssertUnwindSafe(|| {
+                                        callback(
+                                            crate::state::ConnectionState::Connected,
+                                            crate::state::ConnectionState::Disconnected,
+                                        );
+                                    }));
                             }
                             // Saturating: with unlimited attempts the loop may outlive a u32
                             *this.attempt = this.attempt.saturating_add(1);
@@ -169,15 +177,25 @@ where
 
                                 #[cfg(feature = "tracing")]
                                 if let Some(ref callback) = this.config.on_state_change {
-                                    callback(
-                                        crate::state::ConnectionState::Disconnected,
-                                        crate::state::ConnectionState::Reconnecting,
-                                    );
+                                    // Callbacks only observe: a panic in one must not change the call's outcome
+                                    let _ = std::panic::catch_unwind(std::panic::AssertUnwindSafe(
+                                        || {
+                                            callback(
+                                                crate::state::ConnectionState::Disconnected,
+                                                crate::state::ConnectionState::Reconnecting,
+                                            );
+                                        },
+                                    ));
                                 }
 
                                 #[cfg(feature = "tracing")]
                                 if let Some(ref callback) = this.config.on_reconnect {
-                                    callback(*this.attempt);
+                                    // Callbacks only observe: a panic in one must not change the call's outcome
+                                    let _ = std::panic::catch_unwind(std::panic::AssertUnwindSafe(
+                                        || {
+                                            callback(*this.attempt);
+                                        },
+                                    ));
                                 }
 
                                 this.phase.set(Phase::Sleeping(tokio::time::sleep(delay)));
